@@ -123,7 +123,7 @@ impl Check for Admission {
         let mut ops = Vec::new();
         for _ in 0..n {
             let a = rng.below(pool.len() as u64);
-            match rng.weighted(&[30, 12, 14, 4, 4, 3, 3, 6, if n_api > 0 { 8 } else { 0 }, if n_api > 0 { 2 } else { 0 }]) {
+            match rng.weighted(&[30, 12, 14, 4, 4, 3, 3, 6, if n_api > 0 { 8 } else { 0 }, if n_api > 0 { 2 } else { 0 }, if n_api > 0 { 5 } else { 0 }]) {
                 0 => ops.push(jarr!["conn", a, rng.below(4), *rng.pick(&[0u64, 1, 3, 5, 15]), rng.below(4)]),
                 1 => ops.push(jarr!["handshake", a]),
                 2 => ops.push(jarr!["close", a]),
@@ -132,6 +132,10 @@ impl Check for Admission {
                 5 => ops.push(jarr!["second", a]),
                 8 => ops.push(jarr!["api-add", rng.below(n_api.max(1))]),
                 9 => ops.push(jarr!["api-del", rng.below(n_api.max(1))]),
+                10 => {
+                    let fams = *rng.pick(&[0u64, 1, 3, 5]);
+                    ops.push(jarr!["api-upd", rng.below(n_api.max(1)), *rng.pick(&[0u64, 0, 9, 90]), fams, rng.below(4), rng.chance(1, 3), if rng.chance(1, 2) { rng.range(1, 5) } else { 0 }]);
+                }
                 7 => ops.push(jarr!["dial", rng.below(n_static), rng.below(4), *rng.pick(&[0u64, 1, 3, 5, 15]), rng.below(4), rng.chance(1, 3)]),
                 _ => ops.push(jarr!["wait", *rng.pick(&[10u64, 4000])]),
             }
@@ -149,7 +153,7 @@ impl Check for Admission {
 
     fn info(&self) -> CheckInfo {
         CheckInfo {
-            rule: "1-3 static neighbours (eBGP / iBGP / RR client / RS client / confed member, admin-down flags, hold 0/9/90/180, family sets, add-path modes, GR) and 0-3 peer groups with dynamic prefixes (nested and overlapping IPv4, IPv6, 0.0.0.0/0); connections from 11 source addresses inside and outside them; ops connect (with a drawn remote capability list: family set, add-path mode 0-3, GR), complete the handshake, close, open a second connection in the same direction, operator disable/enable, waits, `api-add` / `api-del` (0-2 further neighbours configured through the real AddPeer / DeletePeer handlers, 2 of 3 as members of a named peer group whose AS, hold time, families, add-path and route-server flag they inherit where they have none of their own, with graceful restart and per-family prefix limits of their own), and `dial`: the remote side of a non-passive neighbour listens and takes the daemon's own outgoing connection, in one third of the cases with an operator task that disables the neighbour at the instant the TCP handshake completes (after the connect task queued the socket, before the dispatch loop took it). Oracle on the wire and on Global: a connection is served (OPEN sent) iff the reference admission predicate holds, otherwise closed before any OPEN byte; the OPEN's AS (confederation id towards non-members), hold time, router id and capability list (families, add-path, graceful restart with its time and families, 4-octet AS) equal the neighbour's or group's configuration; the prefix limits in the peer record equal the configured ones; role read back from the peer record equals the reference; both negotiate(a,b)/negotiate(b,a) give mirror-image parameters; a dynamic neighbour's record disappears when its last connection ends. non-trivial = at least one dynamic neighbour was created or one connection was refused".into(),
+            rule: "1-3 static neighbours (eBGP / iBGP / RR client / RS client / confed member, admin-down flags, hold 0/9/90/180, family sets, add-path modes, GR) and 0-3 peer groups with dynamic prefixes (nested and overlapping IPv4, IPv6, 0.0.0.0/0); connections from 11 source addresses inside and outside them; ops connect (with a drawn remote capability list: family set, add-path mode 0-3, GR), complete the handshake, close, open a second connection in the same direction, operator disable/enable, waits, `api-add` / `api-upd` / `api-del` (0-2 further neighbours configured, re-configured and removed through the real AddPeer / UpdatePeer / DeletePeer handlers, 2 of 3 as members of a named peer group whose AS, hold time, families, add-path and route-server flag they inherit where they have none of their own, with graceful restart and per-family prefix limits of their own), and `dial`: the remote side of a non-passive neighbour listens and takes the daemon's own outgoing connection, in one third of the cases with an operator task that disables the neighbour at the instant the TCP handshake completes (after the connect task queued the socket, before the dispatch loop took it). Oracle on the wire and on Global: a connection is served (OPEN sent) iff the reference admission predicate holds, otherwise closed before any OPEN byte; the OPEN's AS (confederation id towards non-members), hold time, router id and capability list (families, add-path, graceful restart with its time and families, 4-octet AS) equal the neighbour's or group's configuration; the prefix limits in the peer record equal the configured ones; role read back from the peer record equals the reference; both negotiate(a,b)/negotiate(b,a) give mirror-image parameters; a dynamic neighbour's record disappears when its last connection ends. non-trivial = at least one dynamic neighbour was created or one connection was refused".into(),
             components_real: vec!["accept_connection, Global::add_peer, PeerParams::{build,build_local_cap}, Peer::peer_role, PeerSession::run (delete-on-disconnect)".into(), "packet::{IpNet::contains, PeerCodec::negotiate}".into(), "fsm::PeerFsm (effective send-max)".into(), "GrpcService::{disable_peer,enable_peer}".into()],
             components_stubbed: vec!["TCP (the remote address is whatever the scenario says), clock, listener loop, remote speakers".into()],
             assumptions: vec!["where several dynamic prefixes match, any matching group may be chosen (the statement does not pick one)".into()],
@@ -165,6 +169,48 @@ fn contains(prefix: &str, addr: &IpAddr) -> bool {
         (IpAddr::V4(p), IpAddr::V4(a)) => len == 0 || (u32::from(p) >> (32 - len)) == (u32::from(*a) >> (32 - len)),
         (IpAddr::V6(p), IpAddr::V6(a)) => len == 0 || (u128::from(p) >> (128 - len)) == (u128::from(*a) >> (128 - len)),
         _ => false,
+    }
+}
+
+fn api_peer_msg(a: &ApiPeerCfg) -> api::Peer {
+    let afi_safis: Vec<api::AfiSafi> = fams_of(a.fam_mask)
+        .iter()
+        .map(|f| api::AfiSafi {
+            config: Some(api::AfiSafiConfig { family: Some(crate::convert::family_to_api(*f)), enabled: true }),
+            add_paths: Some(api::AddPaths { config: Some(api::AddPathsConfig { receive: a.addpath & 1 != 0, send_max: if a.addpath & 2 != 0 { 2 } else { 0 } }), state: None }),
+            mp_graceful_restart: if a.gr { Some(api::MpGracefulRestart { config: Some(api::MpGracefulRestartConfig { enabled: true }), state: None }) } else { None },
+            prefix_limits: if a.plimit > 0 { Some(api::PrefixLimit { family: Some(crate::convert::family_to_api(*f)), max_prefixes: a.plimit, shutdown_threshold_pct: 0 }) } else { None },
+            ..Default::default()
+        })
+        .collect();
+    api::Peer {
+        conf: Some(api::PeerConf { neighbor_address: a.addr.clone(), peer_asn: a.asn, peer_group: if a.group >= 0 { format!("g{}", a.group) } else { String::new() }, ..Default::default() }),
+        timers: Some(api::Timers { config: Some(api::TimersConfig { hold_time: a.hold, ..Default::default() }), state: None }),
+        transport: Some(api::Transport { passive_mode: true, ..Default::default() }),
+        afi_safis,
+        graceful_restart: if a.gr { Some(api::GracefulRestart { enabled: true, restart_time: 77, notification_enabled: true, ..Default::default() }) } else { None },
+        route_server: Some(api::RouteServer { route_server_client: a.rs, secondary_route: false }),
+        route_reflector: Some(api::RouteReflector { route_reflector_client: a.rr, route_reflector_cluster_id: String::new() }),
+        ..Default::default()
+    }
+}
+
+/// What the statement says the neighbour's settings are: its own, else its group's.
+fn effective_cfg(a: &ApiPeerCfg, grp: Option<&GroupCfg>) -> StaticCfg {
+    let own_fams = a.fam_mask != 0;
+    StaticCfg {
+        addr: a.addr.clone(),
+        asn: if a.asn != 0 { a.asn } else { grp.map(|g| g.asn).unwrap_or(0) },
+        hold: if a.hold != 0 { a.hold } else { grp.map(|g| g.hold).filter(|h| *h != 0).unwrap_or(180) },
+        admin_down: false,
+        rs: a.rs || grp.is_some_and(|g| g.rs),
+        rr: a.rr,
+        fam_mask: if own_fams { a.fam_mask } else { grp.map(|g| g.fam_mask).unwrap_or(0) },
+        addpath: if own_fams { a.addpath } else { grp.map(|g| if g.fam_mask != 0 { g.addpath } else { 0 }).unwrap_or(0) },
+        gr: (a.gr && own_fams) || grp.is_some_and(|g| g.gr),
+        active: false,
+        plimit: if own_fams { a.plimit } else { 0 },
+        gr_mask: if a.gr && own_fams { a.fam_mask } else { grp.map(|g| g.fam_mask).unwrap_or(0) },
     }
 }
 
@@ -212,7 +258,7 @@ async fn run(case: Json, tol: Tolerate) -> Outcome {
         })
         .unwrap_or_default();
 
-    let api_peers: Vec<ApiPeerCfg> = case
+    let mut api_peers: Vec<ApiPeerCfg> = case
         .get("api_peers")
         .map(|s| {
             s.arr()
@@ -576,53 +622,53 @@ async fn run(case: Json, tol: Tolerate) -> Outcome {
                 }
                 out.hit(&format!("op.{}", tag));
             }
-            "api-add" if !api_peers.is_empty() => {
-                let a = &api_peers[op.at(1).as_usize() % api_peers.len()];
-                if statics.iter().any(|s| s.addr == a.addr) {
+            "api-add" | "api-upd" if !api_peers.is_empty() => {
+                let k = op.at(1).as_usize() % api_peers.len();
+                let existing = statics.iter().position(|s| s.addr == api_peers[k].addr);
+                if (tag == "api-add") == existing.is_some() {
                     continue;
                 }
+                if tag == "api-upd" {
+                    // UpdatePeer declares the neighbour's full desired state: new values of its own for
+                    // hold time, families, add-path, graceful restart and prefix limits (group
+                    // membership, AS and the RS / RR flags stay). Our side closes first, so that the next
+                    // connection is judged against the new settings.
+                    let a = &mut api_peers[k];
+                    a.hold = op.at(2).as_u64();
+                    a.fam_mask = op.at(3).as_u64();
+                    a.addpath = if a.fam_mask != 0 { op.at(4).as_u64() as u8 } else { 0 };
+                    a.gr = a.fam_mask != 0 && op.at(5).as_bool();
+                    a.plimit = if a.fam_mask != 0 { op.at(6).as_u64() as u32 } else { 0 };
+                    let pa = pool.iter().position(|x| x.to_string() == a.addr);
+                    if let Some(mut sp) = pa.and_then(|x| conns.remove(&x)) {
+                        sp.close();
+                        w.quiesce().await;
+                    }
+                }
+                let a = api_peers[k].clone();
                 let grp = if a.group >= 0 { groups.get(a.group as usize) } else { None };
-                let fams = fams_of(a.fam_mask);
-                let afi_safis: Vec<api::AfiSafi> = fams
-                    .iter()
-                    .map(|f| api::AfiSafi {
-                        config: Some(api::AfiSafiConfig { family: Some(crate::convert::family_to_api(*f)), enabled: true }),
-                        add_paths: Some(api::AddPaths { config: Some(api::AddPathsConfig { receive: a.addpath & 1 != 0, send_max: if a.addpath & 2 != 0 { 2 } else { 0 } }), state: None }),
-                        mp_graceful_restart: if a.gr { Some(api::MpGracefulRestart { config: Some(api::MpGracefulRestartConfig { enabled: true }), state: None }) } else { None },
-                        prefix_limits: if a.plimit > 0 { Some(api::PrefixLimit { family: Some(crate::convert::family_to_api(*f)), max_prefixes: a.plimit, shutdown_threshold_pct: 0 }) } else { None },
-                        ..Default::default()
-                    })
-                    .collect();
-                let peer = api::Peer {
-                    conf: Some(api::PeerConf { neighbor_address: a.addr.clone(), peer_asn: a.asn, peer_group: if a.group >= 0 { format!("g{}", a.group) } else { String::new() }, ..Default::default() }),
-                    timers: Some(api::Timers { config: Some(api::TimersConfig { hold_time: a.hold, ..Default::default() }), state: None }),
-                    transport: Some(api::Transport { passive_mode: true, ..Default::default() }),
-                    afi_safis,
-                    graceful_restart: if a.gr { Some(api::GracefulRestart { enabled: true, restart_time: 77, notification_enabled: true, ..Default::default() }) } else { None },
-                    route_server: Some(api::RouteServer { route_server_client: a.rs, secondary_route: false }),
-                    route_reflector: Some(api::RouteReflector { route_reflector_client: a.rr, route_reflector_cluster_id: String::new() }),
-                    ..Default::default()
+                let peer = api_peer_msg(&a);
+                let r = if tag == "api-add" {
+                    w.grpc.add_peer(tonic::Request::new(api::AddPeerRequest { peer: Some(peer) })).await.map(|_| ())
+                } else {
+                    w.grpc.update_peer(tonic::Request::new(api::UpdatePeerRequest { peer: Some(peer), do_soft_reset_in: false })).await.map(|_| ())
                 };
-                match w.grpc.add_peer(tonic::Request::new(api::AddPeerRequest { peer: Some(peer) })).await {
+                match r {
                     Ok(_) => {
-                        // what the statement says the neighbour's settings are: its own, else its group's
-                        let own_fams = a.fam_mask != 0;
-                        statics.push(StaticCfg {
-                            addr: a.addr.clone(),
-                            asn: if a.asn != 0 { a.asn } else { grp.map(|g| g.asn).unwrap_or(0) },
-                            hold: if a.hold != 0 { a.hold } else { grp.map(|g| g.hold).filter(|h| *h != 0).unwrap_or(180) },
-                            admin_down: false,
-                            rs: a.rs || grp.is_some_and(|g| g.rs),
-                            rr: a.rr,
-                            fam_mask: if own_fams { a.fam_mask } else { grp.map(|g| g.fam_mask).unwrap_or(0) },
-                            addpath: if own_fams { a.addpath } else { grp.map(|g| if g.fam_mask != 0 { g.addpath } else { 0 }).unwrap_or(0) },
-                            gr: (a.gr && own_fams) || grp.is_some_and(|g| g.gr),
-                            active: false,
-                            plimit: if own_fams { a.plimit } else { 0 },
-                            gr_mask: if a.gr && own_fams { a.fam_mask } else { grp.map(|g| g.fam_mask).unwrap_or(0) },
-                        });
-                        admin_down.push(false);
-                        out.hit(if grp.is_some() { "op.api-neighbour-added-in-group" } else { "op.api-neighbour-added" });
+                        let eff = effective_cfg(&a, grp);
+                        match existing {
+                            Some(i) => {
+                                let down = statics[i].admin_down;
+                                statics[i] = eff;
+                                statics[i].admin_down = down;
+                                out.hit(if grp.is_some() { "op.api-neighbour-updated-in-group" } else { "op.api-neighbour-updated" });
+                            }
+                            None => {
+                                statics.push(eff);
+                                admin_down.push(false);
+                                out.hit(if grp.is_some() { "op.api-neighbour-added-in-group" } else { "op.api-neighbour-added" });
+                            }
+                        }
                     }
                     Err(_) => out.hit("op.api-neighbour-refused"),
                 }
